@@ -199,7 +199,7 @@ func VerifC03_v1join_normal() {
 			vAssert(e.times[k]-prev >= T, "C09: a short slice (not the last) is delivered no earlier than Timeout after the previous delivery")
 		}
 	}
-	vAssert(vTickerStops() == vTickerCount(), "C19: the ticker is stopped when main returns")
+	vAssert(vTickersRunning() == 0, "C19: no ticker of the discipline is left running when main returns")
 	vReach("end")
 }
 
@@ -269,7 +269,7 @@ func VerifC16_v1join_stop() {
 	vRunLeftoverSpawned()
 	vReach("returned")
 	vAssert(vIsClosed(d.output), "C16: when main completes after Stop/cancel the output is closed")
-	vAssert(vTickerStops() == vTickerCount(), "C19: the ticker is stopped when main returns")
+	vAssert(vTickersRunning() == 0, "C19: no ticker of the discipline is left running when main returns")
 	e.checkSubsequence()
 	if e.awaiting {
 		// stopped before the release signal: the delivered slice must never be touched again
